@@ -201,7 +201,7 @@ func genReadCase(tp *tape.Tape, op string) *readCase {
 	switch op {
 	case "packet.unpack.plain":
 		id := gen.PacketID(tp)
-		data := gen.Fill(tp, tp.Choose(200), 3, 0)
+		data := gen.Fill(tp, unpackLen(tp), 3, 0)
 		rc.doc = frame.Build(id, data, false, false)
 		rc.dec = func(r io.Reader) (any, int64, error) {
 			var p pk.Packet
@@ -211,7 +211,7 @@ func genReadCase(tp *tape.Tape, op string) *readCase {
 	case "packet.unpack.zlib", "conn.readpacket":
 		id := gen.PacketID(tp)
 		th := []int{0, 1, 16, 64}[tp.Choose(4)]
-		data := gen.Fill(tp, tp.Choose(200), 3, 0)
+		data := gen.Fill(tp, unpackLen(tp), 3, 0)
 		compress := len(data) >= th && tp.Bool(2, 3)
 		if th == 0 {
 			compress = true
@@ -959,3 +959,19 @@ var _ = zlib.NewWriter
 var pWriteEncrypted = simrt.NewProbe("write.conn.writepacket.through.an.installed.cipher")
 
 var pWriteLong = simrt.NewProbe("write.packet.payload.4000..13000.bytes")
+
+var pUnpackLong = simrt.NewProbe("read.packet.payload.beyond.32KiB")
+
+// unpackLen: mostly small payloads (every offset is failed), sometimes beyond
+// typical buffer sizes, occasionally beyond 32 KiB (chunked readers, flate
+// windows) - the offsets next to multiples of 256 and 4096 are always failed.
+func unpackLen(tp *tape.Tape) int {
+	switch tp.Pick(20, 3, 1) {
+	case 1:
+		return 4000 + tp.Choose(9000)
+	case 2:
+		pUnpackLong.Hit()
+		return 32768*(1+tp.Choose(4)) - 40 + tp.Choose(80)
+	}
+	return tp.Choose(200)
+}
